@@ -1,9 +1,9 @@
 (* Entry point of the C10 correspondence: selector + tokens -> tokens.
    Wire format of a history:
      maxDepth allocCheck rootProt  nQ queue*  nReq request*
-     queue   = name parent(0 = "") allocatedPods rl(cap) rl(deserved) rl(guarantee)
+     queue   = name parent(0 = "") allocatedPods state rl(cap) rl(deserved) rl(guarantee)
      rl      = n (dim amount)*n
-     request = 1 name parent rl rl rl | 2 name parent rl rl rl | 3 name | 4 name pods
+     request = 1 name parent rl rl rl | 2 name parent rl rl rl | 3 name | 4 name pods state (-1 = unchanged)
    sel 1 answers  (tag(i) verdict_i)*  tag(900) final queue set (names ascending)
                   tag(901) whether the capacity plugin accepts that queue set.
    sel 101..105 take the history followed by the implementation's verdict list. *)
@@ -28,16 +28,16 @@ Definition dRl : dec rlist := let* kvs := dList (dPair dPos dZ) in ret (list_to_
 Definition dParent : dec (option positive) :=
   let* z := dZ in if z <? 0 then fail else if z =? 0 then ret None else ret (Some (Z.to_pos z)).
 Definition dSpecBody (a : Z) : dec qspec :=
-  let* p := dParent in let* c := dRl in let* d := dRl in let* g := dRl in ret (mkQ p a c d g).
+  let* p := dParent in let* c := dRl in let* d := dRl in let* g := dRl in ret (mkQ p a 0 c d g).
 Definition dQueue : dec (positive * qspec) :=
-  let* n := dPos in let* p := dParent in let* a := dZ in
-  let* c := dRl in let* d := dRl in let* g := dRl in ret (n, mkQ p a c d g).
+  let* n := dPos in let* p := dParent in let* a := dZ in let* st := dZ in
+  let* c := dRl in let* d := dRl in let* g := dRl in ret (n, mkQ p a st c d g).
 Definition dReq : dec req :=
   let* k := dZ in
   if k =? 1 then let* n := dPos in let* s := dSpecBody 0 in ret (Create n s)
   else if k =? 2 then let* n := dPos in let* s := dSpecBody 0 in ret (Update n s)
   else if k =? 3 then let* n := dPos in ret (Delete n)
-  else if k =? 4 then let* n := dPos in let* a := dZ in ret (EnvAlloc n a)
+  else if k =? 4 then let* n := dPos in let* a := dZ in let* st := dZ in ret (EnvStatus n a st)
   else fail.
 Definition dCfg : dec cfg :=
   let* m := dZ in let* a := dBool in let* r := dBool in ret (mkCfg m a r).
@@ -49,7 +49,7 @@ Definition eRl (m : rlist) : list Z := eList (fun kv => [Zpos (fst kv); snd kv])
 Definition eParent (p : option positive) : list Z := match p with None => [0] | Some x => [Zpos x] end.
 Definition eQueue (ns : positive * qspec) : list Z :=
   let s := snd ns in
-  [Zpos (fst ns)] ++ eParent (qparent s) ++ [qalloc s] ++ eRl (qcap s) ++ eRl (qdes s) ++ eRl (qguar s).
+  [Zpos (fst ns)] ++ eParent (qparent s) ++ [qalloc s; qstate s] ++ eRl (qcap s) ++ eRl (qdes s) ++ eRl (qguar s).
 Definition eState (Q : queues) : list Z := eList eQueue (sort_kv (map_to_list Q)).
 
 Fixpoint eVerdicts (i : Z) (vs : list verdict) : list Z :=
